@@ -67,6 +67,15 @@ def check_role_feas(prog: Program, res: Result) -> None:
                     instance=inst)
     loops = [n for n in ast.walk(fi.node) if isinstance(n, ast.For)
              and norm(n.iter) in (f"params.g1_nbrhd[{u}]", f"g1_nbrhd[{u}]")]
+    if not loops and any(
+            isinstance(n, ast.comprehension) and norm(n.iter) in (
+                f"params.g1_nbrhd[{u}]", f"g1_nbrhd[{u}]")
+            for n in ast.walk(fi.node)):
+        # the same test written as any() / all() over a generator
+        res.unrecognised("R-ROLE-FEAS", f"{fi.short}: predicate shape",
+                         fi.loc(), "the neighbours of u are ranged over by a "
+                         "comprehension, not by a for loop with early return")
+        return
     req(bool(loops), "ranges over the neighbours of u",
         "does not loop over params.g1_nbrhd[u]")
     if loops:
